@@ -87,4 +87,14 @@ CHECKS = {
                 "rounding collapses a ring are outside the property's domain and skipped by a guard in the specification.",
         "technique": "TLA+ reference reader/writer machines (TLC exhaustive round trip) + TLC-generated encodings replayed + TLC trace validation of recorded encodings",
     },
+    "C04": {
+        "text": "WKB.tla is a recursive-descent reader and a writer for WKB over byte sequences with opaque 8-byte ordinate tokens and a "
+                "byte order per element; TLC proves reader(writer(g, orders)) = g, trailing bytes ignored and every strict prefix rejected "
+                "without reading past the end, for a family of geometries x all byte-order assignments; the specification's encodings "
+                "(big-endian and mixed, which the library never writes) are replayed into the real UnmarshalWKB, and the bytes recorded "
+                "from the real AsBinary/AppendWKB/Value are read by the specification's reader and must give exactly the geometry built; "
+                "re-encode, trailing bytes and Scan of all eight Go types are logged and judged.",
+        "note": TLCNOTE + "Float bits <-> float64 trusted to math.Float64bits.",
+        "technique": "TLA+ reference WKB reader/writer (TLC exhaustive) + TLC-generated encodings replayed + TLC trace validation of recorded encodings",
+    },
 }
